@@ -615,8 +615,11 @@ class Sess:
             self.fail("prop_fail", "%s modified the dictionary buffer" % what)
 
     # ------------------------------------------------------------ HC streams
-    # levels 1-2 (LZ4MID): every call is mirrored on the extracted Model.HcMidStream and the whole lz4mid view of the
-    # context is compared; levels >= 3 and calls that reach the dictionary-context search: direct oracles only.
+    # levels 1-2 (LZ4MID): every call is mirrored on the extracted Model.HcMidStream (oracle commands h*), levels 3-9
+    # (hash chain) on Model.HcChainStream (commands c*), and the model's whole view of the context is compared after every
+    # call; levels >= 10, strategy changes inside a history and the calls the models leave out (answer "out"): direct
+    # oracles only, the model is re-synchronised from the real context (himport / cimport) before the next mirrored call.
+    # self.hmodel[sid]: None/False = not synchronised, "h" / "c" = synchronised in that model.
     def haddr(self, ptr):
         if not ptr: return 0
         return self.arena.addr(ptr) if self.arena.inside(ptr) else -1
@@ -631,37 +634,40 @@ class Sess:
                 if b.p == s["dctx"]: did = k
         return {"end": self.haddr(s["end"]), "ps": self.haddr(s["prefixStart"]), "ds": self.haddr(s["dictStart"]),
                 "dl": s["dictLimit"], "ll": s["lowLimit"], "ntu": s["nextToUpdate"], "lvl": s["level"], "dirty": 1 if s["dirty"] else 0,
-                "dctx": did, "h4": md5(raw[:65536]), "h8": md5(raw[65536:]), "raw": raw}
-    def h_import(self, sid):
-        """(re)synchronise the model with the real context: used after calls that are outside the model"""
+                "dctx": did, "h4": md5(raw[:65536]), "h8": md5(raw[65536:]), "raw": raw,
+                "ht": md5(raw), "ct": md5(self.hc[sid].bytes(131072, 131072))}
+    def h_import(self, sid, kind="h"):
+        """(re)synchronise the model [kind] with the real context: used after calls that are outside the model"""
         v = self.hview(sid)
         if v["end"] < 0 or v["ps"] < 0 or v["ds"] < 0:
             return False
-        a = self.orc.ask("himport", str(sid), str(v["end"]), str(v["ps"]), str(v["ds"]), str(v["dl"]), str(v["ll"]), str(v["ntu"]),
-                         str(v["lvl"]), str(v["dirty"]), v["raw"].hex())
+        tab = v["raw"].hex() if kind == "h" else (v["raw"] + self.hc[sid].bytes(131072, 131072)).hex()
+        a = self.orc.ask(kind + "import", str(sid), str(v["end"]), str(v["ps"]), str(v["ds"]), str(v["dl"]), str(v["ll"]), str(v["ntu"]),
+                         str(v["lvl"]), str(v["dirty"]), tab)
         if "=" not in a:
-            self.fail("harness_error", "stream oracle himport: " + a[:200])
+            self.fail("harness_error", "stream oracle %simport: %s" % (kind, a[:200]))
+        self.hmodel[sid] = kind
         if v["dctx"] >= 0:
-            if not self.hmodel.get(v["dctx"]):
-                self.h_import(v["dctx"])
-            self.orc.ask("hatt", str(sid), str(v["dctx"]))
+            if self.hmodel.get(v["dctx"]) != kind:
+                self.h_import(v["dctx"], kind)
+            self.orc.ask(kind + "att", str(sid), str(v["dctx"]))
         elif v["dctx"] == -1:
-            self.orc.ask("hatt", str(sid), "-1")
-        self.hmodel[sid] = True
-        self.res["stats"]["hc_model_import"] += 1
+            self.orc.ask(kind + "att", str(sid), "-1")
+        self.res["stats"]["hc_model_import_" + kind] += 1
         return True
-    def h_model_ready(self, sid, mid_op):
-        """is this call mirrored?  [mid_op]: the call runs the lz4mid code (level 1-2) or is pure bookkeeping on a synchronised model"""
-        if not self.orc:
-            return False
-        if self.hmodel.get(sid):
-            d = self.hview(sid)["dctx"]
-            if d >= 0 and not self.hmodel.get(d):
-                self.h_import(d); self.orc.ask("hatt", str(sid), str(d))
-            return True
-        if not mid_op:
-            return False
-        return self.h_import(sid)
+    def h_model_ready(self, sid, op):
+        """in which model is this call mirrored ("h" / "c"), or None?  [op]: the strategy of the parser the call runs
+        (kind_of_level), None when no model covers it, False for pure bookkeeping (mirrored wherever the context is synchronised)"""
+        if not self.orc or op is None:
+            return None
+        cur = self.hmodel.get(sid) or None
+        if op is False or cur == op:
+            if cur:
+                d = self.hview(sid)["dctx"]
+                if d >= 0 and self.hmodel.get(d) != cur:
+                    self.h_import(d, cur); self.orc.ask(cur + "att", str(sid), str(d))
+            return cur
+        return op if self.h_import(sid, op) else None
     def hcmp(self, sid, opname, ret, out, consumed=None, extra=None):
         a = self.model_answer
         st = self.res["stats"]
@@ -684,7 +690,7 @@ class Sess:
         elif consumed is not None and ret > 0 and consumed != m["consumed"]:
             bad = "consumed: model %d, code %d" % (m["consumed"], consumed)
         else:
-            names = ["end", "ps", "ds", "dl", "ll", "ntu", "lvl", "dirty", "h4", "h8"]
+            names = ["end", "ps", "ds", "dl", "ll", "ntu", "lvl", "dirty"] + (["ht", "ct"] if "ct" in m else ["h4", "h8"])
             diff = ["%s: code %s model %s" % (k, c[k], m[k]) for k in names if str(c[k]) != m[k]]
             if (c["dctx"] != -1) != (m["dctx"] == "1"):
                 diff.append("dictCtx!=NULL: code %s model %s" % (c["dctx"] != -1, m["dctx"]))
@@ -696,8 +702,9 @@ class Sess:
                     bad = "%s: code %s model %s" % (k, v, m.get(k))
         self.res["evals"] += 1
         st["hc_model_compared"] += 1
+        if "ct" in m: st["hc_chain_model_compared"] += 1
         if bad:
-            self.fail("corr_fail", "HcMidStream model/code disagree after %s: %s" % (opname, bad))
+            self.fail("corr_fail", "%s model/code disagree after %s: %s" % ("HcChainStream" if "ct" in m else "HcMidStream", opname, bad))
     def hstate(self, sid):
         raw = self.hc[sid].bytes(40, HC_OFF)
         end, ps, dstart = struct.unpack_from("<QQQ", raw, 0)
@@ -725,7 +732,8 @@ class Sess:
         self.lib.initStreamHC(self.hc[sid].p, n)
         self.log.append("init h%d" % sid)
         if self.orc:
-            self.ask("hinit", sid); self.hmodel[sid] = True; self.hcmp(sid, "LZ4_initStreamHC", 0, None)
+            k = kind_of_level(level if level is not None else 9) or "h"      # the model the first compression will run on
+            self.ask(k + "init", sid); self.hmodel[sid] = k; self.hcmp(sid, "LZ4_initStreamHC", 0, None)
         if level is not None:
             self.h_level(sid, level)
     def h_init(self, sid):
@@ -734,13 +742,13 @@ class Sess:
         self.failed_state.discard(("h", sid))
         self.dec[("h", sid)].reset()
         if self.orc:
-            self.ask("hinit", sid); self.hmodel[sid] = True; self.hcmp(sid, "LZ4_initStreamHC", 0, None)
+            self.ask("cinit", sid); self.hmodel[sid] = "c"; self.hcmp(sid, "LZ4_initStreamHC", 0, None)      # level = LZ4HC_CLEVEL_DEFAULT = 9
     def h_level(self, sid, level):
         ready = self.h_model_ready(sid, False)
         self.lib.setCompressionLevel(self.hc[sid].p, level)
         self.log.append("level h%d %d" % (sid, level))
         if ready:
-            self.ask("hlvl", sid, level); self.hcmp(sid, "LZ4_setCompressionLevel", 0, None)
+            self.ask(ready + "lvl", sid, level); self.hcmp(sid, "LZ4_setCompressionLevel", 0, None)
     def h_favor(self, sid, f):
         self.lib.favorDecompressionSpeed(self.hc[sid].p, f)
         self.log.append("favor h%d %d" % (sid, f))
@@ -756,15 +764,16 @@ class Sess:
         if s["dirty"] or s["dctx"]:
             self.fail("prop_fail", "LZ4_resetStreamHC_fast left dirty=%d dictCtx=%x" % (s["dirty"], s["dctx"]))
         if ready:
-            self.ask("hrsf", sid, level); self.hcmp(sid, "LZ4_resetStreamHC_fast", 0, None)
+            self.ask(ready + "rsf", sid, level); self.hcmp(sid, "LZ4_resetStreamHC_fast", 0, None)
         elif self.orc and dirty:
             # a dirty context is fully re-initialised: the model is synchronised again
-            self.ask("hinit", sid); self.ask("hlvl", sid, level); self.hmodel[sid] = True; self.hcmp(sid, "LZ4_resetStreamHC_fast (dirty)", 0, None)
+            k = kind_of_level(level) or "h"
+            self.ask(k + "init", sid); self.ask(k + "lvl", sid, level); self.hmodel[sid] = k; self.hcmp(sid, "LZ4_resetStreamHC_fast (dirty)", 0, None)
     def h_load(self, sid, addr, n):
-        mid = self.hstate(sid)["level"] <= 2
-        if self.orc and mid and not self.hmodel.get(sid):
-            self.orc.ask("hlvl", str(sid), str(self.hstate(sid)["level"])); self.hmodel[sid] = True    # loadDictHC only reads the level
-        ready = self.orc is not None and self.hmodel.get(sid, False)
+        kind = kind_of_level(self.hstate(sid)["level"])
+        if self.orc and kind and self.hmodel.get(sid) != kind:
+            self.orc.ask(kind + "lvl", str(sid), str(self.hstate(sid)["level"])); self.hmodel[sid] = kind    # loadDictHC only reads the level
+        ready = kind if (self.orc is not None and kind and self.hmodel.get(sid) == kind) else None
         r = self.lib.loadDictHC(self.hc[sid].p, self.arena.ptr(addr), n)
         self.log.append("ld h%d %d+%d -> %d" % (sid, addr - BASE, n, r))
         self.res["stats"]["loadDictHC"] += 1
@@ -773,7 +782,7 @@ class Sess:
             self.fail("prop_fail", "LZ4_loadDictHC(%d) returned %d" % (n, r))
         self.dec[("h", sid)].reset(self.arena.read(addr, n), addr)
         if ready:
-            self.ask("hld", sid, addr, n); self.hcmp(sid, "LZ4_loadDictHC", r, None)
+            self.ask(ready + "ld", sid, addr, n); self.hcmp(sid, "LZ4_loadDictHC", r, None)
         elif self.orc:
             self.hmodel[sid] = False
         return r
@@ -781,9 +790,9 @@ class Sess:
         ready = self.h_model_ready(sid, False)
         self.lib.attach_HC_dictionary(self.hc[sid].p, self.hc[did].p if did is not None else None)
         if ready:
-            if did is not None and not self.hmodel.get(did):
-                self.h_import(did)
-            self.ask("hatt", sid, did if did is not None else -1); self.hcmp(sid, "LZ4_attach_HC_dictionary", 0, None)
+            if did is not None and self.hmodel.get(did) != ready:
+                self.h_import(did, ready)
+            self.ask(ready + "att", sid, did if did is not None else -1); self.hcmp(sid, "LZ4_attach_HC_dictionary", 0, None)
         self.log.append("att h%d <- %s" % (sid, "h%d" % did if did is not None else "NULL"))
         self.res["stats"]["attach_HC"] += 1
         if did is not None:
@@ -817,7 +826,7 @@ class Sess:
         src = self.arena.read(addr, n)
         snap = self.h_snap(sid)
         lvl = self.hstate(sid)["level"]
-        ready = self.h_model_ready(sid, lvl <= 2)
+        ready = self.h_model_ready(sid, kind_of_level(lvl))
         consumed = n
         if destsize:
             sz = c_int(n)
@@ -854,8 +863,8 @@ class Sess:
                     self.fail("prop_fail", "LZ4_compress_HC_continue failed with capacity %d >= LZ4_compressBound(%d)" % (cap, n))
         finally:
             if ready:
-                if destsize: self.ask("hcds", sid, addr, n, cap)
-                else: self.ask("hcont", sid, addr, n, cap)
+                if destsize: self.ask(ready + "cds", sid, addr, n, cap)
+                else: self.ask(ready + "cont", sid, addr, n, cap)
                 if not self.res["fails"]:
                     self.hcmp(sid, "LZ4_compress_HC_continue" + ("_destSize" if destsize else ""), r, out, consumed=consumed if destsize else None)
             elif self.orc:
@@ -879,7 +888,7 @@ class Sess:
         if r > 0 and len(d.H) >= r and d.H[-r:] != self.arena.read(addr, r):
             self.fail("prop_fail", "LZ4_saveDictHC did not save the last %d bytes of the stream" % r)
         if ready:
-            self.ask("hsave", sid, addr, n)
+            self.ask(ready + "save", sid, addr, n)
             self.hcmp(sid, "LZ4_saveDictHC", r, None, extra={"mem": md5(self.arena.read(addr, r))})
         elif self.orc and r > 0:
             # keep the model's memory in step even when the context is not compared
@@ -894,8 +903,8 @@ class Sess:
         dst = Buf(max(cap, 0), fill=0xC3)
         src = self.arena.read(addr, n)
         f = self.lib.compress_HC_extStateHC_fastReset if kind == "fr" else self.lib.compress_HC_extStateHC
-        mid = 1 <= level <= 2
-        ready = (self.orc is not None and mid) if kind == "ext" else self.h_model_ready(sid, mid)
+        lk = kind_of_level(level)
+        ready = (lk if self.orc is not None else None) if kind == "ext" else self.h_model_ready(sid, lk)
         r = f(self.hc[sid].p, self.arena.ptr(addr), dst.p, n, cap, level)
         out = dst.bytes(r) if 0 < r <= cap else b""
         dst.free()
@@ -919,8 +928,8 @@ class Sess:
                     self.fail("prop_fail", "HC one-shot failed with capacity %d >= bound" % cap)
         finally:
             if ready:
-                self.ask("hfr" if kind == "fr" else "hext", sid, addr, n, cap, level)
-                self.hmodel[sid] = True
+                self.ask(ready + ("fr" if kind == "fr" else "ext"), sid, addr, n, cap, level)
+                self.hmodel[sid] = ready
                 if not self.res["fails"]:
                     self.hcmp(sid, "LZ4_compress_HC_extStateHC" + ("_fastReset" if kind == "fr" else ""), r, out)
             elif self.orc:
@@ -941,6 +950,11 @@ class Sess:
 
 def size_class(n):
     return "0" if n == 0 else "1-12" if n <= 12 else "<4K" if n < 4096 else "4K" if n <= 4097 else "<64K" if n < 65536 else ">=64K"
+def kind_of_level(l):
+    """which extracted model covers the parser of this compression level: "h" = Model.HcMidStream (lz4mid, levels 1-2),
+    "c" = Model.HcChainStream (hash chain, levels 3-9; a level < 1 means LZ4HC_CLEVEL_DEFAULT = 9), None = lz4opt"""
+    if l < 1: l = 9
+    return "h" if l <= 2 else "c" if l <= 9 else None
 def lvl_class(l):
     return "mid" if 1 <= l <= 2 else "hc" if 3 <= l <= 9 else "opt" if l >= 10 else "dflt"
 
